@@ -10,6 +10,7 @@ import PgsVerif.Model.FailStop
 import PgsVerif.Model.AstNav
 import PgsVerif.Model.AstSem
 import PgsVerif.Model.AstSem2
+import PgsVerif.Model.Walk
 /-
   JSON glue: one `Engine` per correspondence.  Only decoding/encoding lives here; every function
   called is the very definition the theorems in `PgsVerif/Props` are about.
@@ -282,9 +283,33 @@ def engineC08 : Engine :=
   mkEngine (I := World) (O := C08Obs) c08Model domC08 judgeC08
 def engineC09 : Engine :=
   mkEngine (I := World) (O := C09Obs) c09Model (fun _ => true) judgeC09
+structure WalkJ where
+  start : Ref
+  mode : String                       -- "rec", "pass" (PassThroughVisitor) or "nil" (NilVisitor)
+  policy : List (Ref × Nat × Nat)     -- node, action (0 same, 1 replace, 2 prune, 3 (nil, err), 4 (v, err)), replacement visitor
+deriving FromJson, ToJson
+def WalkJ.pol (x : WalkJ) : Policy :=
+  x.policy.map fun (r, a, k) => (r, match a with | 1 => Act.replace k | 2 => .prune | 3 => .failNil | 4 => .failKeep | _ => .same)
+structure WorldW where
+  w : World
+  walks : List WalkJ
+instance : FromJson WorldW where
+  fromJson? j := do
+    let w : World ← fromJson? j
+    let ws : List WalkJ ← j.getObjValAs? (List WalkJ) "walks"
+    pure ⟨w, ws⟩
+def walkOne (w : World) (x : WalkJ) : WalkObs :=
+  if x.mode == "nil" then ⟨[], noRef⟩ else walkModel x.pol w x.start (x.mode == "pass")
+def engineC07 : Engine :=
+  mkEngine (I := WorldW) (O := List WalkObs) (fun i => i.walks.map (walkOne i.w)) (fun _ => true)
+    (fun i o =>
+      if o.length != i.walks.length then some "harness: wrong number of walks" else
+      (i.walks.zip o).findSome? fun (x, ob) =>
+        if x.mode == "nil" then (if ob == ⟨[], noRef⟩ then none else some "NilVisitor walk returned an error")
+        else judgeWalk x.pol i.w x.start (x.mode == "pass") ob)
 end AST
 
 def engines : List (String × Engine) :=
-  [ ("c11", C11.engine), ("fp", FP.engine), ("c15", C15.engine), ("c19", C19.engine), ("c20", C20.engine), ("c18", C18.engine), ("c10", Persist.engineC10), ("c12", Persist.engineC12), ("c11p", Persist.engineC10), ("c13", C13.engine), ("c14", C14.engine), ("c01", AST.engineC01), ("c02", AST.engineC02), ("c03", AST.engineC03), ("c04", AST.engineC04), ("c08", AST.engineC08), ("c09", AST.engineC09) ]
+  [ ("c11", C11.engine), ("fp", FP.engine), ("c15", C15.engine), ("c19", C19.engine), ("c20", C20.engine), ("c18", C18.engine), ("c10", Persist.engineC10), ("c12", Persist.engineC12), ("c11p", Persist.engineC10), ("c13", C13.engine), ("c14", C14.engine), ("c01", AST.engineC01), ("c02", AST.engineC02), ("c03", AST.engineC03), ("c04", AST.engineC04), ("c08", AST.engineC08), ("c09", AST.engineC09), ("c07", AST.engineC07) ]
 
 end Pgs
